@@ -50,6 +50,15 @@ CLAIMS = {
             "obligation.",
             "fake datagram transport, SimLoop, integer tuning; 3 (4) events per run; Reset only for unacknowledged notifications",
             TECH_E1, "DESIGN.md 5 C08"),
+    "C16": ("URIs composed by a reference RFC 3986 / RFC 7252 6.5 composer from components chosen by symbolic index (6 schemes x 12 "
+            "host texts incl. mixed case, percent-escaped, non-ASCII, IPv4, IPv6 x no/default/other ports; path and query segments "
+            "over a 22-entry alphabet of reserved characters, empty and dot segments, non-ASCII and literal escapes) are decomposed "
+            "with set_request_uri and must give exactly the components (RFC 7252 6.4); get_request_uri/set_request_uri is a fixed "
+            "point; option sets compose and decompose to themselves; 31 malformed texts raise only the documented URL errors; the "
+            "path/query quoting functions are checked for every ASCII code point and code points covering every UTF-8 byte value; "
+            "hostportjoin/split round trip.",
+            "alphabet-bounded (whole-URI strings through urllib are not decidable symbolically here); reference composer in the harness; urllib.parse trusted",
+            TECH_E1 + " (components by symbolic index: bounded alphabet)", "DESIGN.md 5 C16"),
     "C18": ("Two stacks S on one virtual-time loop; the first is put into one of 11 busy scenarios (CON awaiting ACK, awaiting "
             "separate response, block-wise upload, client observation, slow server handler with pending empty-ACK timer, registered "
             "observer, NSTART backlog, live deduplication entries, combinations) and shut down at a symbolic instant in [0,7000] "
